@@ -115,6 +115,14 @@ def run(res):
             for junk in (b"", b"\x19", b"\x19\x08\x09" + bytes(r.randrange(4, 256) for _ in range(r.choice([2, 10, 17])))):
                 o = offs[pos]
                 files.append(("short entry (%d bytes) before entry %d of %s" % (len(junk), pos, lbl), cs, data[:o] + b"\x00\x00\x00\x01" + junk + data[o:], None))
+    # an entry introduced by a 3-byte start code stays glued to the one before it (the reader splits on 00 00 00 01
+    # only): the combined entry is no valid RPU, the read must fail, never return the list without that entry
+    for lbl, cs, data, exp in base[:3]:
+        offs = [i for i in range(len(data) - 4) if data[i : i + 4] == b"\x00\x00\x00\x01"]
+        for pos in (1, len(offs) // 2, len(offs) - 1):
+            o = offs[pos]
+            if o > 0 and data[o - 1] != 0:
+                files.append(("3-byte start code before entry %d of %s" % (pos, lbl), cs, data[:o] + data[o + 1:], None))
     short1 = b"\x00\x00\x00\x01" + R.escape(pool[0])
     files.append(("valid entry then a bare start code", 10000, short1 + b"\x00\x00\x00\x01", None))
     files.append(("short entry then a valid one", 10000, b"\x00\x00\x00\x01\x19\x08\x09\x44" + short1, None))
@@ -170,7 +178,7 @@ def run(res):
         else:
             res.violation("export fails on a valid RPU file (%s)" % lbl, {"cmd": "export", "label": lbl, "chunk_size": cs, "file_hex": C.hexs(data)})
     # the commands on a file with an invalid last entry and on one with a short entry: an error status, no output list
-    for lbl, cs, data, exp in [f for f in files if f[3] is None and (f[0].startswith("corrupt #") or f[0].startswith("short entry") or f[0].startswith("truncated"))][:6]:
+    for lbl, cs, data, exp in [f for f in files if f[3] is None and (f[0].startswith("corrupt #") or f[0].startswith("short entry") or f[0].startswith("truncated"))][:6] + [f for f in files if f[3] is None and f[0].startswith("3-byte")][:2]:
         path = os.path.join(tmp, "bad.bin")
         open(path, "wb").write(data)
         env = dict(os.environ)
@@ -185,7 +193,7 @@ def run(res):
     res.coverage.update({
         "evaluations": 2 * len(lines) + ncli,
         "distinct_nontrivial": len(files),
-        "rule": "RPU files of 1..N entries (sizes 25..2500 bytes, some followed by zero bytes) whose start codes are steered to every offset -4..+4 around multiples of the read chunk size, several chunks per file, files that are an exact multiple of the chunk size, one corrupted entry first / middle / last / in a later chunk, entries too short to be an RPU (truncated file, doubled start code, short garbage entry at any position), empty file, file without start code; read through the library reader with the hook chunk sizes (>= 8192 so that reads bypass the 8 KiB BufReader) and with the real 100000; expected list = what was written; Coq model of the loop compared; `info -s`, `editor {}` and `export -d all` on valid files, `info` / `export` must fail on files with an invalid or short entry; distinct files counted",
+        "rule": "RPU files of 1..N entries (sizes 25..2500 bytes, some followed by zero bytes) whose start codes are steered to every offset -4..+4 around multiples of the read chunk size, several chunks per file, files that are an exact multiple of the chunk size, one corrupted entry first / middle / last / in a later chunk, entries too short to be an RPU (truncated file, doubled start code, short garbage entry at any position), an entry behind a 3-byte start code (glued to its predecessor), empty file, file without start code; read through the library reader with the hook chunk sizes (>= 8192 so that reads bypass the 8 KiB BufReader) and with the real 100000; expected list = what was written; Coq model of the loop compared; `info -s`, `editor {}` and `export -d all` on valid files, `info` / `export` must fail on files with an invalid or short entry; distinct files counted",
         "chunk_sizes": sizes + [100000], "disagreements": nd,
         "samples": [f[0] for f in files[:3]] + [files[-1][0]],
     })
